@@ -180,7 +180,7 @@ func (g *Gen) pt(n *Node) PTSpec {
 	r := g.R
 	p := PTSpec{ID: g.id()}
 	if r.P(g.P.PPTErr) {
-		p.Op = Pick(r, []string{"err", "mut_err", "issue"})
+		p.Op = Pick(r, []string{"err", "mut_err", "issue", "wrap_issue"})
 		p.S = Pick(r, []string{"boom", "bad"})
 		p.N = 1
 	} else {
@@ -318,7 +318,7 @@ func (g *Gen) node(depth int) *Node {
 	if c < g.P.PCustom+g.P.PPre {
 		inner := g.prim(KString)
 		inner.Coercer = ""
-		return &Node{Kind: KPre, Elem: inner, PreOp: Pick(r, []string{"upper", "upper", "trim", "err", "issue"}), PreID: g.id()}
+		return &Node{Kind: KPre, Elem: inner, PreOp: Pick(r, []string{"upper", "upper", "trim", "err", "issue", "wrap"}), PreID: g.id()}
 	}
 	return g.prim(Pick(r, g.P.Kinds))
 }
@@ -335,6 +335,9 @@ func (g *Gen) strct(depth int) *Node {
 		}
 		used[GoName(k)] = true
 		f := Field{Key: k, Node: g.node(depth + 1)}
+		if f.Node.Kind == KString && f.Node.Coercer == "" && r.P(25) {
+			f.Node.Named = true // StringSchema[NamedStr] over a `type NamedStr string` field
+		}
 		if r.P(g.P.PTags) {
 			f.Tags = map[string]string{}
 			if r.P(60) {
